@@ -196,3 +196,15 @@ Theorem C08_valid_answer_example :
   exists a, snd (negotiate cfg_default (add_transceiver st_init KAudio DSendRecv) good_offer true) = AOk a /\
             valid_answer good_offer a = true.
 Proof. exact valid_answer_example. Qed.
+
+(* offers without a=mid (legacy SIP), first negotiation of a fresh connection with any pre-added
+   transceivers: kinds, (empty) mids and directions follow the offer -- the matching loop of
+   set_remote_description and the matching of create_answer pick the same transceivers (lock-step);
+   the re-offer case is the listed finding F30 *)
+From RV Require Import Proofs.AnswerMidless.
+Theorem C08_midless_first_negotiation : forall c pre o changed a,
+  wfB (f_secs o) ->
+  create_answer c (set_remote c (fresh pre) o changed) = AOk a ->
+  Forall2 (fun x sec => a_kind x = o_kind sec /\ a_mid x = EmptyString /\ dir_compat (o_dir sec) (a_dir x) = true)
+          (a_secs a) (f_secs o).
+Proof. exact midless_first_fresh. Qed.
